@@ -446,19 +446,56 @@ func (r *Roles) resolveFunctions() {
 	}
 	r.FnLoop = pickFn(usesOfKind(p.uses(r.FRequests), "select-recv", "recv"))
 	r.FnExec = pickFn(usesOfKind(p.uses(r.FQueue), "select-recv", "recv"))
-	// redial: non-construction stores to the socket field
+	// redial: the function that decides to reconnect: it (or a helper it calls) spawns a
+	// goroutine whose call cone installs a new socket; climb to the nearest enclosing
+	// function that reports a boolean verdict.
 	{
 		set := map[*ssa.Function]bool{}
 		var out []*ssa.Function
-		for _, u := range usesOfKind(p.uses(r.FSock), "store") {
-			if isFreshAlloc(u.Base) {
-				continue
-			}
-			o := outermost(u.Fn)
-			if !set[o] {
-				set[o] = true
-				out = append(out, o)
-			}
+		for _, fn := range p.Funcs {
+			allInstrsRaw(fn, func(in ssa.Instruction) {
+				g, ok := in.(*ssa.Go)
+				if !ok {
+					return
+				}
+				tgt := p.unbound(staticCallee(g))
+				if tgt == nil || !p.allFns[tgt] {
+					return
+				}
+				swaps := false
+				p.coneInstrs(tgt, func(x ssa.Instruction) {
+					if st, ok := x.(*ssa.Store); ok {
+						if fa, ok := st.Addr.(*ssa.FieldAddr); ok && fieldOfAddr(fa) == r.FSock && !isFreshAlloc(fa.X) {
+							swaps = true
+						}
+					}
+				})
+				if !swaps {
+					return
+				}
+				o := outermost(fn)
+				for i := 0; i < ipMaxDepth; i++ {
+					res := o.Signature.Results()
+					if res.Len() == 1 && types.Identical(res.At(0).Type(), types.Typ[types.Bool]) {
+						break
+					}
+					cs := p.syncCallers(o)
+					up := map[*ssa.Function]bool{}
+					for _, c := range cs {
+						up[outermost(c.Parent())] = true
+					}
+					if len(up) != 1 {
+						break
+					}
+					for f := range up {
+						o = f
+					}
+				}
+				if !set[o] {
+					set[o] = true
+					out = append(out, o)
+				}
+			})
 		}
 		if f, ok := one(out); ok {
 			r.FnRedial = f
